@@ -66,6 +66,16 @@ check('C09', 'model_checking',
       'rule for typed domains (absence for reads, TypeError + unchanged for writes).',
       TB, 'lock-step explicit-state BFS over both implementations', 'E2', 'DESIGN.md §4 C09')
 
+check('C18', 'exploration',
+      'For every reachable shape (C and Python): the pristine tree and its re-materialisation through '
+      '__setstate__ are accepted by check() and _check(); every single application of 14 corruption '
+      'operators at every position (key swap/duplicate/shift, separator below/above range, next dropped/'
+      'skipping/self/backwards, emptied leaf, emptied interior node, wrong firstbucket at every node, '
+      'mixed child kinds) that the independent walk classifies as corrupt must be rejected with '
+      'AssertionError by check() or _check().',
+      TB, 'exhaustive enumeration of single corruptions over every reachable shape (BFS state space)',
+      'E1', 'DESIGN.md §4 C18')
+
 PENDING = ['C%02d' % i for i in range(1, 20)]
 
 
